@@ -16,6 +16,28 @@ class Ctx:
         self.tier = tier
         self.facts_dir = facts_dir
         self.extra = extra or {}
+        self._n2 = None
+
+    def composite(self, force):
+        """(program, analyses) in which the named functions of the pinned tree are inlined into their callers as well: the
+        unit of analysis becomes the caller with the whole decision in one body"""
+        key = tuple(sorted(force))
+        if not hasattr(self, '_comp'):
+            self._comp = {}
+        if key not in self._comp:
+            p = Program(self.facts_dir, level=self.prog.level, force=key)
+            self._comp[key] = (p, Analyses(p))
+        return self._comp[key]
+
+    def n2(self):
+        """(program, analyses) in normal form N2 (combinators and iterator adaptors with closures expanded): for rules about
+        closure-heavy functions, which read the same whether the code is written with adaptors or with loops"""
+        if self.prog.level >= 2:
+            return self.prog, self.an
+        if self._n2 is None:
+            p2 = Program(self.facts_dir, level=2)
+            self._n2 = (p2, Analyses(p2))
+        return self._n2
 
 
 def registry():
